@@ -37,6 +37,9 @@ def tracer(frame, event, arg):
     if frame.f_code.co_filename.endswith(targets):
         return local
     return None
+# a forked child inherits the counter: the parent leaves it 50 numbers, so that one n designates
+# one instant of one process
+os.register_at_fork(after_in_parent=lambda: count.__setitem__(0, count[0] + 50))
 sys.settrace(tracer)
 sys.argv = [script]
 try:
